@@ -66,13 +66,21 @@ theorem cfg_execOp (s : St) (op : Op) : (execOp s op).1.cfg = s.cfg := by
   | getKey k => simp only [execOp]; split <;> rfl
   | getKeys => rfl
   | getKeysWithData => rfl
-  | resetRoutine k => exact (frame_resetKey s k).cfg
-  | restartRoutine k => exact (touch_restartKey s k).frame.cfg
-  | resetAll =>
+  | resetRoutine k cs =>
+    simp only [execOp]
+    split
+    · exact (frame_resetKey s k).cfg
+    · exact rfl
+  | restartRoutine k cs =>
+    simp only [execOp]
+    split
+    · exact (touch_restartKey s k).frame.cfg
+    · exact rfl
+  | resetAll cs =>
     simp only [execOp]
     rw [foldl_fst resetAllStep (fun s k => (resetKey s k).1) (fun _ _ => rfl)]
     exact (foldl_frame _ (fun s k => frame_resetKey s k) _ _).cfg
-  | restartAll =>
+  | restartAll cs =>
     simp only [execOp]
     rw [foldl_fst restartAllStep (fun s k => (restartKey s k).1) (fun _ _ => rfl)]
     exact (foldl_frame _ (fun s k => (touch_restartKey s k).frame) _ _).cfg
@@ -184,9 +192,10 @@ theorem cinv_step (s s' : St) (e : Ev) (h : CInv s) (hs : step s e = some s') : 
     split at hs
     · rename_i op hc
       simp at hs; subst hs
-      refine cinv_of_sub h (s' := { (execOp s op).1 with
-        calls := s.calls.map (fun c => if c = Call.invoked id op then Call.done id (execOp s op).2.1 (execOp s op).2.2 else c) })
-        (cfg_execOp s op) ?_
+      refine cinv_of_sub h (s' := { (execOp (preOp s op) op).1 with
+        calls := s.calls.map (fun c => if c = Call.invoked id op then
+          Call.done id (execOp (preOp s op) op).2.1 (execOp (preOp s op) op).2.2 else c) })
+        ((cfg_execOp (preOp s op) op).trans (preOp_fields s op).2.2.2.2.1) ?_
       intro id' op' hi
       simp only [List.mem_map] at hi
       obtain ⟨c, hc1, hc2⟩ := hi
@@ -295,6 +304,12 @@ theorem cinv_step (s s' : St) (e : Ev) (h : CInv s) (hs : step s e = some s') : 
     simp only [step] at hs
     split at hs
     · simp at hs; subst hs; exact cinv_of_same h rfl rfl
+    · simp at hs
+  | cancelroot =>
+    simp only [step] at hs
+    split at hs
+    · simp at hs; subst hs
+      exact cinv_of_same h (sameBut_cancelAll _).cfg (sameBut_cancelAll _).calls
     · simp at hs
 
 theorem cinv_reachable (s : St) (h : model.Reachable s) : CInv s :=
